@@ -14,6 +14,12 @@ Oracle : per (scene, size) in a supervised ASan worker (and the release build fo
          CONTACTFULL/CNSTRFULL was raised in that step, and without a warning ncon, nefc, qpos, qvel are bit-identical to
          the unbounded run.
 """
+import json
+import os
+import re
+import shutil
+import subprocess
+import sys
 import threading
 
 import numpy as np
@@ -27,11 +33,36 @@ KNOWN_ISLAND = 'C20:clearIsland-zeroes-nefc-keeps-contact-efc_address'
 KNOWN_PAIR = 'C20:pushPairArena-null-deref'
 
 
+def postmortem(job, S):
+  """Re-run one (scene, size) of a dead release-build worker under gdb: innermost frame + fault address."""
+  if S is None or not shutil.which('gdb'):
+    return ''
+  d = os.path.join(asanproc.WORK, 'proc', 'C20pm')
+  os.makedirs(d, exist_ok=True)
+  jf = os.path.join(d, 'pm%d.jobs.json' % os.getpid())
+  with open(jf, 'w') as f:
+    json.dump([[0, dict(job, mode='sweep', need=job.get('need', 0), sizes=[S])]], f)
+  try:
+    p = subprocess.run(['gdb', '-batch', '-ex', 'run', '-ex', 'bt 8', '-ex', 'p $_siginfo._sifields._sigfault', '--args',
+                        sys.executable, '-m', 'checks.c20_worker', jf, jf + '.out'], cwd=asanproc.runner.VERIF,
+                       env=asanproc.plain_env(), capture_output=True, text=True, errors='replace', timeout=300)
+    out = p.stdout[-4000:]
+  except Exception as e:
+    out = 'postmortem failed: %r' % e
+  for f in (jf, jf + '.out', jf + '.out.journal'):
+    try:
+      os.unlink(f)
+    except OSError:
+      pass
+  keep = [l for l in out.split('\n') if l.startswith('#') or 'SIG' in l or 'si_addr' in l]
+  return '\n'.join(keep)[:3000]
+
+
 def sizes_for(need, quick):
   sizes = set([need - 1, need, need + 64, 0, 1, 8, 63, 64])
   if quick:
     sizes |= set(int(x) for x in np.linspace(0, need, 40))
-    sizes |= set(range(0, min(need, 8192), 32))
+    sizes |= set(range(0, min(need, 4096), 32))
   else:
     sizes |= set(range(0, need, 64))
     sizes |= set(range(0, min(need, 8192), 8))
@@ -142,6 +173,8 @@ def main(ck):
     for c in range(nchunk):
       pending.append(dict(b, mode='sweep', need=r['need'], sizes=sizes[c::nchunk]))
   needs = []
+  seen_sig = set()
+  ck.max_samples = 8
   for attempt in range(8):
     if not pending:
       break
@@ -153,8 +186,14 @@ def main(ck):
         if res.get('harness'):
           raise RuntimeError('worker setup failed: %s' % res['stderr'][-1500:])
         S = note_death(job, res)
-        rest = [x for x in job['sizes'] if S is None or x > S]
-        if rest and S is not None:
+        # resubmit the rest of the chunk; sizes right above a fatal size are skipped (same failing window, each one
+        # would cost a worker) and counted
+        rest = [x for x in job['sizes'] if S is not None and x > S + 256]
+        skipped = [x for x in job['sizes'] if S is not None and S < x <= S + 256]
+        if skipped:
+          ck.discard('size within 256 bytes above a fatal size (not executed)')
+          ck.extra['skipped_after_death'] = ck.extra.get('skipped_after_death', 0) + len(skipped)
+        if rest:
           nxt.append(dict(job, sizes=rest))
         continue
       r = res['result']
@@ -174,10 +213,14 @@ def main(ck):
           labels.append('warn:' + wn)
         if o['kind'] == 'ok' and not o['warn']:
           labels.append('outcome:clean')
+        sig = (o['kind'], tuple(o.get('warn', [])), (o.get('site') or '').split('(')[0].split(':')[0])
+        fresh = nt and sig not in seen_sig and (o['kind'] != 'error' or sum(1 for x in seen_sig if x[0] == 'error') < 2)
+        if fresh:
+          seen_sig.add(sig)
         ck.case(nontrivial=nt, key=(key, scene['body'], job['seed'], o['S']),
                 sample=dict(variant=key, nobj=scene['nobj'], memory=o['S'], need=need, outcome=o['kind'],
                             warnings=o.get('warn'), error_site=o.get('site'), steps_completed=o.get('steps'),
-                            unbounded_ncon_nefc=r['ref']) if nt and o['kind'] != 'error' or (nt and o['S'] > 4096) else None,
+                            unbounded_ncon_nefc=r['ref']) if fresh else None,
                 labels=labels)
     pending = nxt
   for (sid, variant), r in sorted(info.items()):
@@ -191,8 +234,11 @@ def main(ck):
     blob = (res.get('frame') or '') + (res.get('report') or '')[:3000]
     if key == 'asan' and 'pushPairArena' in blob:
       fp = KNOWN_PAIR
-    if key == 'rel' and res['rc'] == -11 and job['sid'] in asan_pair_death:
-      fp = KNOWN_PAIR
+    if key == 'rel' and res['rc'] == -11:
+      pm = postmortem(job, j.get('memory'))
+      res['report'] = pm
+      if re.search(r'#0\s+\S+ in (mj_collision|pushPairArena|pushGeomGeom) ', pm) and re.search(r'si_addr = (0x0|0x[0-9a-f]{1,3})\b', pm):
+        fp = KNOWN_PAIR        # write through the NULL page inside the broadphase pair push
     ck.violation('memory=%s step=%s [%s build]: worker process died (%s, rc=%s) @ %s\n%s' % (
         j.get('memory'), j.get('step'), key, res['kind'], res['rc'], res['frame'],
         (res['report'] or res['stderr'])[:3000]),
